@@ -115,3 +115,11 @@ Proof.
   intros data off file script H Hd. destruct (ersatz_pwrite_ok data off file (os_init [] script) H Hd) as (o' & E & _).
   exists o'. exact E.
 Qed.
+
+Lemma C03_threaded_buffered_stream_all_proof :
+  forall ws bsize script, 1 <= bsize -> no_err script = true ->
+  exists o', tbs_run ws bsize (os_init [] script) = (Ok tt, o') /\ os_sink o' = concat ws.
+Proof.
+  intros ws bsize script Hb H. destruct (tbs_run_ok ws bsize (os_init [] script) Hb H) as (o' & E & S).
+  exists o'. split; [exact E|exact S].
+Qed.
